@@ -4,27 +4,59 @@
    [Derivable rx rules facts f]: f is a base fact, or the head instance of a rule
    under a substitution that sends every body predicate to a derivable fact
    (consistently for repeated variables), makes every expression true, and binds
-   every head variable.  Facts and rule heads are required set-free for the
-   completeness direction: Go's Set.Equal (used to de-duplicate facts) is not an
-   equivalence on lists with repeated elements — [C05_setfree_needed] exhibits
-   the counter-example; sets remain unrestricted in bodies and expressions. *)
+   every head variable.
+
+   Facts are compared by Predicate.Equal, which on set constants is Set.Equal:
+   same length and the same elements.  Since its repair it is an equivalence
+   relation ([C05_equal_is_equivalence]); the world keeps the first
+   representative of each class of Equal facts (p([1,2]) and p([2,1]) are one
+   fact).  [fact_eqv f g] is [pred_eqb f g = true]; "present", "no duplicates",
+   "same facts" are therefore [InA fact_eqv], [NoDupA fact_eqv], [equivlistA /
+   PermutationA fact_eqv] of the standard library.
+
+   Every step of the evaluation respects Equal — matching, binding, head
+   instantiation and every operator, intersection and union included since
+   they return each element once ([C05_operators_respect_equal]).  Hence
+   completeness, exactness and order-independence hold, up to Equal, for EVERY
+   program: set constants with repeated elements and set operators together.
+   For set-free programs Equal is equality and the syntactic statements are
+   kept ([C05_least_model_setfree]). *)
 From BV Require Import Base Term Expr Datalog DatalogProofs Odometer OdometerProofs.
-From Coq Require Import Permutation.
+From Coq Require Import Permutation SetoidList SetoidPermutation.
+
+(* Term.Equal / Predicate.Equal are equivalence relations *)
+Theorem C05_equal_is_equivalence :
+  (forall t, term_eqb t t = true) /\
+  (forall a b, term_eqb a b = term_eqb b a) /\
+  (forall a b c, term_eqb a b = true -> term_eqb b c = true -> term_eqb a c = true) /\
+  (forall p, pred_eqb p p = true) /\
+  (forall p q, pred_eqb p q = pred_eqb q p) /\
+  (forall p q r, pred_eqb p q = true -> pred_eqb q r = true -> pred_eqb p r = true).
+Proof. exact Equal_is_equivalence. Qed.
 
 Theorem C05_run_sound : forall rx lim rules facts fs e,
   run rx lim rules facts = (fs, e) -> forall f, In f fs -> Derivable rx rules facts f.
 Proof. exact run_sound. Qed.
 
+(* every derivable fact has an Equal fact in the world *)
 Theorem C05_run_complete : forall rx lim rules facts fs,
-  setfree_facts facts -> setfree_rules rules ->
-  run rx lim rules facts = (fs, None) -> forall f, Derivable rx rules facts f -> In f fs.
+  run rx lim rules facts = (fs, None) -> forall f, Derivable rx rules facts f -> InA fact_eqv f fs.
 Proof. exact run_complete. Qed.
 
 Theorem C05_least_model : forall rx lim rules facts fs,
+  NoDupA fact_eqv facts ->
+  run rx lim rules facts = (fs, None) ->
+  (forall f, In f fs -> Derivable rx rules facts f) /\
+  (forall f, Derivable rx rules facts f -> InA fact_eqv f fs) /\
+  NoDupA fact_eqv fs.
+Proof. exact DatalogProofs.C05_least_model. Qed.
+
+(* the set-free case, with syntactic membership *)
+Theorem C05_least_model_setfree : forall rx lim rules facts fs,
   NoDup facts -> setfree_facts facts -> setfree_rules rules ->
   run rx lim rules facts = (fs, None) ->
   (forall f, In f fs <-> Derivable rx rules facts f) /\ NoDup fs.
-Proof. exact DatalogProofs.C05_least_model. Qed.
+Proof. exact DatalogProofs.C05_least_model_setfree. Qed.
 
 (* Derivable really is the least model: contained in every model closed under the rules *)
 Theorem C05_derivable_is_least : forall rx rules facts (M : pred -> Prop),
@@ -36,14 +68,15 @@ Theorem C05_derivable_is_least : forall rx rules facts (M : pred -> Prop),
   forall f, Derivable rx rules facts f -> M f.
 Proof. exact Derivable_least. Qed.
 
-(* querying a rule returns exactly the head instances of the satisfying substitutions *)
+(* querying a rule returns exactly the head instances of the satisfying
+   substitutions, one per class of Equal facts (no hypothesis on sets) *)
 Theorem C05_query_exact : forall rx r fs,
-  setfree_facts fs -> setfree_pred (r_head r) = true -> snd (apply_rule rx r fs []) = None ->
-  forall h, In h (query_rule rx r fs) <->
-    exists c b, Forall (fun g => In g fs) c /\
+  snd (apply_rule rx r fs []) = None ->
+  forall h, InA fact_eqv h (query_rule rx r fs) <->
+    exists c b h', Forall (fun g => In g fs) c /\
       Forall2 (fun g p => pred_match g p = true) c (r_body r) /\
       bind_all (r_body r) c [] = Some b /\ eval_exprs rx (r_exprs r) b = Ok true /\
-      inst_head (r_head r) b = Some h.
+      inst_head (r_head r) b = Some h' /\ fact_eqv h h'.
 Proof. exact query_exact. Qed.
 
 Theorem C05_query_sound : forall rx r fs h,
@@ -54,12 +87,36 @@ Theorem C05_query_sound : forall rx r fs h,
     inst_head (r_head r) b = Some h.
 Proof. exact query_sound. Qed.
 
-(* all fact orders and rule orders give the same model *)
+(* all fact orders and rule orders give the same model, up to Equal *)
 Theorem C05_order_free : forall rx lim lim' rules rules' facts facts' a b,
-  setfree_facts facts -> setfree_rules rules -> NoDup facts ->
+  NoDupA fact_eqv facts ->
   Permutation facts facts' -> Permutation rules rules' ->
-  run rx lim rules facts = (a, None) -> run rx lim' rules' facts' = (b, None) -> Permutation a b.
+  run rx lim rules facts = (a, None) -> run rx lim' rules' facts' = (b, None) ->
+  PermutationA fact_eqv a b.
 Proof. exact run_perm. Qed.
+
+(* more generally: base facts that are the same up to Equal (any order, any
+   multiplicity, different representatives — as two insertion orders produce) *)
+Theorem C05_order_free_equal : forall rx lim lim' rules rules' facts facts' a b,
+  equivlistA fact_eqv facts facts' -> (forall r, In r rules <-> In r rules') ->
+  run rx lim rules facts = (a, None) -> run rx lim' rules' facts' = (b, None) ->
+  equivlistA fact_eqv a b.
+Proof. exact run_equivlist. Qed.
+
+(* every binary operator gives Equal results (or the same error) on Equal
+   operands; in particular intersection and union of Equal sets are Equal *)
+Theorem C05_operators_respect_equal : forall rx o l l' r r',
+  trel l l' -> trel r r' -> resrel trel (eval_binary rx o l r) (eval_binary rx o l' r').
+Proof. exact eval_binary_rel. Qed.
+
+Theorem C05_trel_is_equal : forall a b, trel a b <-> term_eqb a b = true.
+Proof. exact trel_iff. Qed.
+
+Theorem C05_set_operators_respect_equal : forall a a' b b',
+  set_equal a a' = true -> set_equal b b' = true ->
+  set_equal (set_intersect a b) (set_intersect a' b') = true /\
+  set_equal (set_union a b) (set_union a' b') = true.
+Proof. intros a a' b b' Ha Hb. exact (conj (set_intersect_equal a a' b b' Ha Hb) (set_union_equal a a' b b' Ha Hb)). Qed.
 
 Theorem C05_world_only_grows : forall rx lim rules facts fs e,
   run rx lim rules facts = (fs, e) -> forall f, In f facts -> In f fs.
@@ -71,15 +128,33 @@ Theorem C05_odometer_refines : forall fuel ps facts,
   (enough_fuel ps facts <= fuel)%nat -> odo_tuples fuel ps facts = Some (combos ps facts).
 Proof. exact odometer_refines_all. Qed.
 
-Example C05_setfree_needed := run_complete_needs_setfree.
+(* the old witness [1,1] / [1,2], repaired: both p's and both q's, in both fact orders *)
+Example C05_sets_repaired := run_sets_repaired.
+(* membership is up to Equal: p([2,1]) is derivable, the world holds p([1,2]) *)
+Example C05_modulo_equal := run_complete_modulo_equal.
+(* the former counter-examples (a repeated element AND an intersection), repaired:
+   the operators give Equal results on Equal sets, both fact orders give Equal worlds *)
+Example C05_setops_repaired := run_sets_setops_repaired.
+Example C05_setops_respect_equal_sets := setops_respect_equal_sets.
+(* non-vacuity: a set-free program; a program with repeated elements, intersection
+   and union together, in two presentations *)
 Example C05_hypotheses_satisfiable := anc_least_model.
+Example C05_hypotheses_satisfiable_sets := rep_least_model.
+Example C05_order_free_sets := rep_order_free.
+Example C05_order_free_sets_perm := rep_perm.
 
+Print Assumptions C05_equal_is_equivalence.
 Print Assumptions C05_run_sound.
 Print Assumptions C05_run_complete.
 Print Assumptions C05_least_model.
+Print Assumptions C05_least_model_setfree.
 Print Assumptions C05_derivable_is_least.
 Print Assumptions C05_query_exact.
 Print Assumptions C05_query_sound.
 Print Assumptions C05_order_free.
+Print Assumptions C05_order_free_equal.
+Print Assumptions C05_operators_respect_equal.
+Print Assumptions C05_trel_is_equal.
+Print Assumptions C05_set_operators_respect_equal.
 Print Assumptions C05_world_only_grows.
 Print Assumptions C05_odometer_refines.
